@@ -8,6 +8,7 @@ import RactorModel.Lemmas.AdmissionOracle
 import RactorModel.Lemmas.AdmissionShut
 import RactorModel.Lemmas.Early
 import RactorModel.Lemmas.EarlyStep
+import RactorModel.Lemmas.StopPortsRun
 
 /-!
 # C07 — drain processes everything accepted and admits nothing afterwards
@@ -171,7 +172,13 @@ theorem drained_exit_handled_everything (progs : List (List Op)) (sched : List T
   have hq : g.sh.queue = [] := (List.append_eq_nil_iff.mp hb).2
   have hf : g.sh.flushed = [] := (List.append_eq_nil_iff.mp hb).1
   refine ⟨?_, hq, hf⟩
-  rw [Q.handled_eq, Q.conserve, hq, hf]; simp
+  have ht : g.sh.taken = none := by
+    cases ht : g.sh.taken with
+    | none => rfl
+    | some i => have := Q.taken_live (by simp [ht]); simp [Q.stopped h] at this
+  have he := Q.handled_eq
+  rw [Q.marker_no_drop h, ht] at he
+  rw [Q.conserve, hq, hf]; simpa using he.symm
 
 /-- (6) *A repeated drain is harmless*: once the marker bit is set (some drain completed) and the
 status is at least `Draining`, a whole further `drain()` — its three atomic steps, run from any
@@ -193,6 +200,48 @@ theorem repeated_drain_changes_nothing (s : Shared) (parent : Frame) (rest : Lis
     subst this
     simp [stepThread, finish, kindOf, mRet, markerCond, stDraining, stStopping]
   · simp [stepThread, finish, kindOf, mRet, markerCond, h]
+
+/-- (6, round 4) **A repeated drain is harmless under ANY interleaving.** Once some drain has
+completed (marker bit set, hence closed) and the status is at least `Draining` — facts that no step
+of anybody can undo (`completed_drain_is_stable`) — EVERY single step of a further `drain()`
+(`drain.close`, `drain.status`, `marker.load`), taken at any moment between any other threads'
+steps, leaves the whole shared state untouched except for the log of returned ops; its last step
+logs `Ok`. No hypothesis on the frame's thread, its parent frames or what the other threads do. -/
+theorem repeated_drain_step_changes_nothing (s : Shared) (f : Frame) (rest : List Frame)
+    (hm : s.word.marker = true) (hc : s.word.closed = true) (hst : stDraining ≤ s.status)
+    (hpc : f.pc = .dClose ∨ f.pc = .dStatus ∨ f.pc = .mLoad none) :
+    ∃ s' st', stepThread s (f :: rest) = some (s', st') ∧ s' = { s with rets := s'.rets } ∧
+      (f.pc = .mLoad none → s'.rets = s.rets ++ [⟨.drain, f.id, .ok, f.late, f.seenOk⟩] ∧ st' = rest) ∧
+      (f.pc ≠ .mLoad none → s'.rets = s.rets) := by
+  obtain ⟨pc, id, late, ops, bf, sk⟩ := f
+  simp only at hpc
+  rcases hpc with rfl | rfl | rfl
+  · refine ⟨_, _, rfl, ?_, by simp, by simp⟩
+    obtain ⟨⟨wc, wm, wn⟩, status, queue, rxOpen, rxStopped, sbo, enq, deqd, handled, flushed, dex, mdrop,
+      nextId, rets, taken, dropped⟩ := s
+    simp only at hc; subst hc; rfl
+  · obtain ⟨⟨wc, wm, wn⟩, status, queue, rxOpen, rxStopped, sbo, enq, deqd, handled, flushed, dex, mdrop,
+      nextId, rets, taken, dropped⟩ := s
+    simp only at hst
+    by_cases h : status < stStopping
+    · have : status = stDraining := by simp only [stDraining, stStopping] at *; omega
+      subst this
+      exact ⟨_, _, rfl, by simp [stDraining, stStopping], by simp, by simp [stDraining, stStopping]⟩
+    · refine ⟨_, _, rfl, ?_, by simp, ?_⟩ <;> simp [h]
+  · have hcond : markerCond s.word = false := by simp [markerCond, hm]
+    refine ⟨(finish s ⟨.mLoad none, id, late, ops, bf, sk⟩ .ok rest).1,
+      (finish s ⟨.mLoad none, id, late, ops, bf, sk⟩ .ok rest).2, ?_, ?_, ?_, by simp⟩
+    · simp [stepThread, hcond, mRet]
+    · simp [finish]
+    · intro _; simp [finish, kindOf]
+
+/-- … and the premise is stable: a completed drain stays completed along every continuation. -/
+theorem completed_drain_is_stable (g : G) (sched : List Tid)
+    (hm : g.sh.word.marker = true) (hc : g.sh.word.closed = true) (hst : stDraining ≤ g.sh.status) :
+    (run g sched).sh.word.marker = true ∧ (run g sched).sh.word.closed = true ∧
+    stDraining ≤ (run g sched).sh.status := by
+  have m := mono_run g sched
+  exact ⟨m.marker hm, m.closed hc, Nat.le_trans hst m.status⟩
 
 /-- **A drain that is not interleaved with anything** (API level): admission is closed, the status
 becomes `Draining` unless the actor is already stopping, and — if no send holds a ticket and the
@@ -229,6 +278,75 @@ theorem oracle_holds_of_model (progs : List (List Op)) (sched : List Tid)
     (he : endState (run (init progs) sched) = true) :
     (obsOf (run (init progs) sched)).violations = [] :=
   violations_nil (reach_run progs sched) he
+
+/-! ### The end-state clauses of the oracle as standalone theorems (round 4)
+
+`endState`: no op in flight, the channel is empty, nothing is taken, and the receiver — if it left
+its loop — has closed the channel: the actor task ran until it blocked. -/
+
+/-- (5) **A drain ends the actor exactly once with "Drained"** unless a stop / kill / failure
+intervened: in every end state with admission closed and no other exit, the marker was emitted, the
+receiver has taken exactly one "Drained" exit and is gone. (Never two, in any state:
+`drained_exit_at_most_once`.) -/
+theorem drain_ends_the_actor_exactly_once (progs : List (List Op)) (sched : List Tid)
+    (he : endState (run (init progs) sched) = true)
+    (hc : (run (init progs) sched).sh.word.closed = true)
+    (hso : (run (init progs) sched).sh.stoppedByOther = false) :
+    (run (init progs) sched).sh.word.marker = true ∧ (run (init progs) sched).sh.word.count = 0 ∧
+    (run (init progs) sched).sh.drainedExits = 1 ∧ (run (init progs) sched).sh.rxOpen = false := by
+  have h := violations_nil_clauses _ (oracle_holds_of_model progs sched he)
+  simp only [obsOf] at h
+  obtain ⟨-, -, -, -, -, h6, h7, -, h9, -⟩ := h
+  simp_all
+
+/-- (3) **Every send that returned Ok is handled** (its handler was started, not merely dequeued)
+in every end state that was not reached through a stop / kill / failure — with or without a drain;
+and nothing else is handled. -/
+theorem every_ok_send_is_handled_at_the_end (progs : List (List Op)) (sched : List Tid)
+    (he : endState (run (init progs) sched) = true)
+    (hso : (run (init progs) sched).sh.stoppedByOther = false) (i : Nat) :
+    i ∈ (run (init progs) sched).sh.handled ↔
+      ∃ r ∈ (run (init progs) sched).sh.rets, r.kind = .send ∧ r.res = .ok ∧ r.id = i := by
+  have h := violations_nil_clauses _ (oracle_holds_of_model progs sched he)
+  simp only [obsOf, hso, Bool.false_or] at h
+  obtain ⟨-, h2, h3, -⟩ := h
+  rw [List.all_eq_true] at h2 h3
+  constructor
+  · intro hi
+    obtain ⟨r, hr, hp⟩ := List.any_eq_true.mp (h2 i hi)
+    refine ⟨r, hr, ?_⟩
+    simp only [Ret.isOkSend, Ret.isSend, Bool.and_eq_true, beq_iff_eq] at hp
+    obtain ⟨⟨hk, hres⟩, hid⟩ := hp
+    refine ⟨?_, ?_, hid⟩
+    · cases hkk : r.kind <;> simp_all
+    · cases hrr : r.res <;> simp_all
+  · rintro ⟨r, hr, hk, hres, rfl⟩
+    have := h3 r hr
+    simp only [Ret.isOkSend, Ret.isSend, hk, hres, Bool.and_self, Bool.not_true, Bool.false_or,
+      List.contains_eq_mem, decide_eq_true_eq] at this
+    exact this
+
+/-- (1)+(3) at the end of a drained actor: the handled messages are exactly those whose send
+returned Ok, each once, and every send that started after the close was handed back. -/
+theorem drained_actor_handled_exactly_the_accepted (progs : List (List Op)) (sched : List Tid)
+    (he : endState (run (init progs) sched) = true)
+    (hso : (run (init progs) sched).sh.stoppedByOther = false) :
+    (∀ i, (run (init progs) sched).sh.handled.count i ≤ 1) ∧
+    (∀ r ∈ (run (init progs) sched).sh.rets, r.kind = .send → r.late = true → r.res = .sendErr) ∧
+    (∀ r ∈ (run (init progs) sched).sh.rets, r.kind = .send → r.res = .ok →
+      r.id ∈ (run (init progs) sched).sh.handled) := by
+  refine ⟨?_, ?_, ?_⟩
+  · intro i
+    have q := qinv_run _ sched (qinv_init progs)
+    have h1 := (idInv_run i _ sched (idInv_init i progs)).one
+    have hc := congrArg (List.count (Item.msg i)) q.conserve
+    have hh := congrArg (List.count i) q.handled_eq
+    simp only [List.count_append, count_msgIds] at hc hh
+    omega
+  · intro r hr hk hl
+    exact (send_after_close_rejected progs sched r hr hk hl).1
+  · intro r hr hk hres
+    exact (every_ok_send_is_handled_at_the_end progs sched he hso r.id).mpr ⟨r, hr, hk, hres, rfl⟩
 
 /-! ### Source guards (E-SRC): the tables the model depends on, re-extracted from the sources on
 every run -/
@@ -276,7 +394,7 @@ example : (run (init [[.send [.drain] false]]) (List.replicate 15 (.t 0))).sh.en
       [⟨.drain, 0, .ok, false, []⟩, ⟨.send, 0, .ok, false, []⟩] := by decide
 
 /-- the hypothesis of `oracle_holds_of_model` is satisfiable: the example, after the receiver ran -/
-example : endState (run (init exampleProgs) (exampleSched ++ [.recv, .recv, .setStatus 5, .rxClose, .rxFlush])) = true := by
+example : endState (run (init exampleProgs) (exampleSched ++ [.recv, .recv, .recv, .setStatus 5, .rxClose, .rxFlush])) = true := by
   decide
 
 /-- hypotheses of `send_started_after_close_is_rejected` are satisfiable: after the drainer's close
@@ -633,9 +751,122 @@ theorem model_release_follows_generated (enq : Except MessagingErr Unit) (s : Sh
   simp only [hpc]
 end
 end XlateTie
+/-! ## Round 4 — the one-shot stop / signal ports racing with drain and the actor's loop
+
+Model `Model/StopPorts.lean`: any number of threads, each running any program of `stop(reason)`,
+`kill()`, `drain()` (two atomic steps) and sends; the actor task polled at any moments (`poll fin`:
+one poll; `fin` = the handler / `post_stop` future completes in it) and `ActorPortSet::drop`.
+All theorems are for ALL thread programs and ALL schedules. -/
+
+section ports
+open StopPorts
+
+/-- **At most one stop request is ever accepted by the stop port** (`send_stop` takes the one-shot
+sender out of the `Option`: the first caller wins). -/
+theorem at_most_one_stop_accepted (progs : List (List StopPorts.Op)) (sched : List StopPorts.Tid) :
+    (StopPorts.run (StopPorts.init progs) sched).s.calls.countP Call.stopAcc ≤ 1 := by
+  have := (inv_reach progs sched).stop_one; omega
+
+/-- … and at most one signal by the signal port. -/
+theorem at_most_one_kill_accepted (progs : List (List StopPorts.Op)) (sched : List StopPorts.Tid) :
+    (StopPorts.run (StopPorts.init progs) sched).s.calls.countP Call.killAcc ≤ 1 := by
+  have := (inv_reach progs sched).kill_one; omega
+
+/-- **Every other caller observed a refusal, and the first one did not:** the first stop (kill)
+request is accepted unless the actor had already dropped its ports, and nothing is accepted after
+the ports were dropped. -/
+theorem first_request_wins (progs : List (List StopPorts.Op)) (sched : List StopPorts.Tid) :
+    let s := (StopPorts.run (StopPorts.init progs) sched).s
+    (∀ c, s.calls.find? (fun c => !c.kill) = some c → c.accepted = true ∨ c.epoch = 3) ∧
+    (∀ c, s.calls.find? (fun c => c.kill) = some c → c.accepted = true ∨ c.epoch = 3) ∧
+    (∀ c ∈ s.calls, c.epoch = 3 → c.accepted = false) := by
+  have h := inv_reach progs sched
+  exact ⟨h.first_stop, h.first_kill, h.no_acc_gone⟩
+
+/-- **Exactly one stop reason wins, by the priority rule.** Whenever the actor has fixed its exit
+reason `r` (what the supervisor is told):
+`r = killed` iff a kill was accepted before the loop's decisive poll (the last poll of `post_stop`);
+otherwise `r = stop x` iff a stop with reason `x` was accepted before the loop chose its exit;
+otherwise `r = Drained` (and then a drain marker had been sent). -/
+theorem exit_reason_is_the_priority_winner (progs : List (List StopPorts.Op)) (sched : List StopPorts.Tid)
+    (r : Reason) (he : (StopPorts.run (StopPorts.init progs) sched).s.phase.exit? = some r) :
+    let s := (StopPorts.run (StopPorts.init progs) sched).s
+    (r = .killed ↔ killInTime s) ∧
+    (∀ x, r = .stop x ↔ ¬ killInTime s ∧ ∃ c ∈ s.calls, c.stopAcc = true ∧ c.epoch = 0 ∧ c.reason = x) ∧
+    (r = .drained ↔ ¬ killInTime s ∧ ¬ ∃ c ∈ s.calls, c.stopAcc = true ∧ c.epoch = 0) ∧
+    (r = .drained → s.marker = true) := by
+  have h := inv_reach progs sched
+  refine ⟨exit_killed_iff h he, exit_stop_iff h he, exit_drained_iff h he, ?_⟩
+  rintro rfl
+  exact (h.exit_drained (Phase.exit_chosen _ _ he)).1
+
+/-- **The fate of a `stop()` that returned Ok, exactly.** If it was accepted before the loop chose
+its exit, its reason is the exit reason unless a kill pre-empted it; if it slipped in later (the
+loop had already taken the drain marker or a signal, ports not yet dropped) the exit reason is
+"Drained" or "killed" and the request is flushed with the ports. -/
+theorem accepted_stop_wins_or_is_preempted (progs : List (List StopPorts.Op)) (sched : List StopPorts.Tid)
+    (r : Reason) (he : (StopPorts.run (StopPorts.init progs) sched).s.phase.exit? = some r)
+    (c : Call) (hc : c ∈ (StopPorts.run (StopPorts.init progs) sched).s.calls) (hs : c.stopAcc = true) :
+    (c.epoch = 0 → r = .stop c.reason ∨ r = .killed) ∧ (1 ≤ c.epoch → r = .drained ∨ r = .killed) :=
+  accepted_stop_fate (inv_reach progs sched) he hc hs
+
+/-- **No message overtakes a pending stop or signal**, and **a request accepted in time ends the
+actor**: the run-time oracle `StopPorts.Obs.violations` — the function the driver evaluates on the
+implementation's observations (every caller's result, the exit reason the supervisor saw) — is empty
+in every reachable state of the model; with `final` (the actor task ran until it blocked) this
+includes: a stop / kill accepted before the decisive poll ⇒ the actor has exited. -/
+theorem stop_port_oracle_holds_of_model (progs : List (List StopPorts.Op)) (sched : List StopPorts.Tid)
+    (final : Bool) (hf : final = true → blocked (StopPorts.run (StopPorts.init progs) sched).s = true) :
+    (obsOf (StopPorts.run (StopPorts.init progs) sched).s final).violations = [] :=
+  violations_nil (inv_reach progs sched) final hf
+
+/-- The epoch-free part of that oracle (`Obs.freeViolations`: at most one accepted request per port,
+the exit reason is an accepted request or the marker, an accepted request ends the actor) — what the
+free-running stress cases (real threads, no schedule points, multi-threaded runtime, where requests
+DO land while `post_stop` runs or after the loop chose its exit) are judged by. -/
+theorem stop_port_free_oracle_holds_of_model (progs : List (List StopPorts.Op)) (sched : List StopPorts.Tid)
+    (final : Bool) (hf : final = true → blocked (StopPorts.run (StopPorts.init progs) sched).s = true) :
+    (obsOf (StopPorts.run (StopPorts.init progs) sched).s final).freeViolations = [] :=
+  freeViolations_nil (inv_reach progs sched) final hf
+
+/-- E-SRC: the arm order the model's `pick` and `poll` follow is the one in the source. -/
+theorem src_port_priority :
+    Extracted.selectArmVariants = [StopPorts.pickOrder, StopPorts.pickOrder] ∧
+    Extracted.runWithSignalArms = StopPorts.runWithSignalOrder ++ StopPorts.runWithSignalOrder := by
+  decide
+
+/-- Non-vacuity: three stoppers with distinct reasons, a killer and a drainer on one actor. Stop 2
+is accepted first, 1 and 3 are refused; the loop takes the stop, the kill lands while `post_stop`
+runs: the supervisor is told "killed". Without the kill the reason is stop 2. -/
+example :
+    let g := StopPorts.run (StopPorts.init [[.stop (some 1)], [.stop (some 2)], [.stop (some 3)], [.kill], [.drain]])
+      [.t 4, .t 1, .t 0, .t 4, .poll true, .t 2, .t 3, .poll true, .dropPorts]
+    g.s.phase = .gone .killed ∧ g.s.calls.map (·.accepted) = [true, false, false, true] ∧
+    g.s.calls.map (·.epoch) = [0, 0, 1, 1] := by decide
+
+example :
+    let g := StopPorts.run (StopPorts.init [[.stop (some 1)], [.stop (some 2)], [.send, .drain]])
+      [.t 2, .t 1, .t 0, .t 2, .poll true, .poll true, .dropPorts, .t 2]
+    g.s.phase = .gone (.stop (some 2)) ∧ g.s.handled = 0 ∧ blocked g.s = true := by decide
+
+/-- a stop that returned Ok and lost to "Drained": accepted after the loop took the marker -/
+example :
+    let g := StopPorts.run (StopPorts.init [[.drain], [.stop (some 7)]])
+      [.t 0, .t 0, .poll true, .t 1, .poll true, .dropPorts]
+    g.s.phase = .gone .drained ∧ g.s.calls = [⟨false, some 7, true, 1⟩] := by decide
+
+end ports
 
 end C07
 
+#print axioms C07.at_most_one_stop_accepted
+#print axioms C07.at_most_one_kill_accepted
+#print axioms C07.first_request_wins
+#print axioms C07.exit_reason_is_the_priority_winner
+#print axioms C07.accepted_stop_wins_or_is_preempted
+#print axioms C07.stop_port_oracle_holds_of_model
+#print axioms C07.stop_port_free_oracle_holds_of_model
+#print axioms C07.src_port_priority
 #print axioms C07.send_after_close_rejected
 #print axioms C07.send_started_after_close_is_rejected
 #print axioms C07.first_step_records_closed
@@ -647,8 +878,13 @@ end C07
 #print axioms C07.drain_completes
 #print axioms C07.drained_exit_handled_everything
 #print axioms C07.repeated_drain_changes_nothing
+#print axioms C07.repeated_drain_step_changes_nothing
+#print axioms C07.completed_drain_is_stable
 #print axioms C07.uninterleaved_drain
 #print axioms C07.oracle_holds_of_model
+#print axioms C07.drain_ends_the_actor_exactly_once
+#print axioms C07.every_ok_send_is_handled_at_the_end
+#print axioms C07.drained_actor_handled_exactly_the_accepted
 #print axioms C07.src_status_discriminants
 #print axioms C07.src_admission_word_layout
 #print axioms C07.src_drain_steps
